@@ -33,6 +33,10 @@ std::string ContentOf(const CmdSpec& c, const std::string& out,
                       const std::vector<std::pair<std::string, std::string>>& reads,
                       const std::string& rsp_content);
 extern const char kMissing[];
+/// A file name as compilers write it into a depfile (spaces and '#' escaped with a backslash, '$' doubled).
+std::string DepfileEscape(const std::string& name);
+/// The depfile text a command writes.
+std::string DepfileText(const CmdSpec& c);
 
 struct Fault {
   int exit_code = 1;      // 1..255; 130 is reported by the real ParseExitStatus as "interrupted"
